@@ -252,7 +252,17 @@ def expected(ctx, model, a0, sel, fixed, sill_mode, sill_val, n_anis=0, anis_mod
     (a term) -- see the module docstring"""
     m = ctx.m
     opt = list(model.opt_arg)
-    val_in = {p: fixed.get(p, a0[p]) for p in DEFAULT_PARA + opt}
+    # the values the parameters have once the fixed values are assigned (variance last): for models whose
+    # variance depends on other parameters (truncated power law: var = var_raw * var_factor(len_scale, len_low,
+    # hurst)) assigning e.g. len_low moves var like any plain assignment `model.len_low = v` does
+    import copy
+    ref = copy.copy(model)
+    for p, v in fixed.items():
+        if p != "var":
+            setattr(ref, p, v)
+    if "var" in fixed:
+        ref.var = fixed["var"]
+    val_in = {p: fixed.get(p, getattr(ref, p)) for p in DEFAULT_PARA + opt}
     fitted = {p: sel.get(p, "fit") == "fit" for p in DEFAULT_PARA + opt}
     final = {p: None if fitted[p] else val_in[p] for p in DEFAULT_PARA + opt}
     S, raises = None, ctx.Or()
@@ -291,6 +301,8 @@ FN = ["covmodel/fit.py:fit_variogram", "covmodel/fit.py:_pre_para", "covmodel/fi
       "covmodel/tools.py:check_arg_in_bounds", "covmodel/tools.py:default_arg_from_bounds"]
 X2 = [0.5, 1.5]
 Y2 = [0.4, 0.8]
+X1 = [1.0]
+Y1 = [0.6]
 
 
 def frame_view(model):
@@ -334,7 +346,12 @@ def run_fit(ctx, cls, dim, sel, sill_mode, k, anis_mode="off", directional=False
     spans.update({"anis%d" % i: (0.5, 2.0) for i in range(n_anis)})
     ghost = GhostCurveFit(ctx, model, slots, k, spans)
     before = frame_view(model)
-    x = X2 if x is None else x
+    if x is None:
+        # one bin centre where the curve VALUES only add special-function terms (they are never used by the
+        # ghost optimiser): directional data, models with optional arguments
+        one = directional or cls != "Gaussian"
+        x = X1 if one else X2
+        y = ((Y1 if one else Y2) * (dim if directional else 1)) if y is None else y
     y = (Y2 * (dim if directional else 1)) if y is None else y
     raised = None
     try:
@@ -398,8 +415,11 @@ def run_fit(ctx, cls, dim, sel, sill_mode, k, anis_mode="off", directional=False
     return R
 
 
+_ABBR = {"len_low": "low"}
+
+
 def _sel_name(sel):
-    return ",".join("%s:%s" % (k[:3], v) for k, v in sel.items()) or "all-fit"
+    return ",".join("%s:%s" % (_ABBR.get(k, k[:3]), v) for k, v in sel.items()) or "all-fit"
 
 
 def selections(params):
@@ -541,15 +561,15 @@ def _default_from_bounds(lo, hi):
           functions=FN, nsamples=3, search=30, timeout=20)
 def fit_init_guess(ctx, cls, guess, sill):
     m = ctx.m
-    y = [ctx.real("y%d" % i, lo=0.2, hi=0.9) for i in range(2)]
+    y = [ctx.real("y0", lo=0.2, hi=0.9)]
     given = ctx.real("guess", lo=-0.5, hi=3.0)
     ig = {"default": "default", "current": "current", "dict-len": {"len_scale": given},
           "dict-var+current": {"var": given, "default": "current"}}[guess]
-    R = run_fit(ctx, cls, 1, {}, sill, 1, y=arr(ctx, y), init_guess=ig, check=("bounds",))
+    R = run_fit(ctx, cls, 1, {}, sill, 1, x=X1, y=arr(ctx, y), init_guess=ig, check=("bounds",))
     rec, slots, a0, model = R["ghost"].rec, R["slots"], R["a0"], R["model"]
     lo, hi = [list(b) for b in rec["bounds"]]
     p0 = list(rec["p0"])
-    mean_y = (y[0] + y[1]) / 2
+    mean_y = y[0]
     for i, p in enumerate(slots):
         inside = lambda v: in_bound(ctx, v, [lo[i], hi[i], "oo"])      # noqa: E731
         fallback = _default_from_bounds(lo[i], hi[i])
@@ -627,7 +647,7 @@ def fit_r2(ctx, data):
     ss_tot = sum((v - mean_y) * (v - mean_y) for v in y)
     ctx.require(ctx.gt(ss_tot, 0))
     yarr = arr(ctx, y).reshape(dim, 2) if dim > 1 else arr(ctx, y)
-    R = run_fit(ctx, "Gaussian", dim, {}, "none", 1, anis_mode="fit", directional=(data == "dir"), y=yarr,
+    R = run_fit(ctx, "Gaussian", dim, {}, "none", 1, anis_mode="fit", directional=(data == "dir"), x=X2, y=yarr,
                 return_r2=True, check=())
     model, ret = R["model"], R["ret"]
     ctx.ensure("returns-three-values", len(ret) == 3)
@@ -738,3 +758,27 @@ def fit_tpl(ctx, cls, sel, sill, k):
           tiers=("thorough",))
 def fit_tpl_more(ctx, cls, sel, sill, k):
     run_fit(ctx, cls, 1, _SEL[(cls, sel)], sill, k, check=("state", "bounds"))
+
+
+# --- method / loss / max_eval / extra keyword arguments reach curve_fit untouched ----------------------
+@contract(P, "fit_variogram/method-loss-passed-through",
+          params=[{"method": m, "loss": l} for m in ("trf", "dogbox", "lm") for l in ("soft_l1", "linear")],
+          functions=FN, nsamples=1, search=5, timeout=20)
+def fit_options(ctx, method, loss):
+    model, a0 = make_model(ctx, "Gaussian", 1)
+    ghost = GhostCurveFit(ctx, model, list(DEFAULT_PARA), 1, SPAN)
+    extra = {"ftol": 1e-9}
+    raised = False
+    try:
+        with ghost_installed(ghost):
+            _q(model.fit_variogram, X2, Y2, method=method, loss=loss, max_eval=77, curve_fit_kwargs=extra)
+    except ValueError:
+        raised = True
+    if method == "lm":      # "method : {'trf', 'dogbox'}"
+        ctx.ensure("unknown-method-rejected", raised and ghost.rec is None)
+        ctx.ensure("model-untouched", ctx.And(*[ctx.eq(getattr(model, p), a0[p]) for p in DEFAULT_PARA]))
+        ctx.done()
+    rec = ghost.rec
+    ctx.ensure("passed-through", (not raised) and rec["method"] == method and rec["loss"] == loss and
+               rec["max_nfev"] == 77 and rec.get("ftol") == 1e-9)
+    ctx.ensure("data-passed-through", ctx.And(ctx.eq(rec["xdata"], X2), ctx.eq(rec["ydata"], Y2)))
